@@ -23,7 +23,7 @@
    it never flows into replicated state or results. *)
 From stdpp Require Import gmap strings.
 From Coq Require Import NArith.
-From Verif Require Import Store.Model Snapshot.Model Snapshot.Defs Snapshot.Proofs Snapshot.Inv Snapshot.Cut Snapshot.Witness.
+From Verif Require Import Store.Model Snapshot.Model Snapshot.Defs Snapshot.Proofs Snapshot.Inv Snapshot.Cut Snapshot.Chain Snapshot.Witness.
 Local Open Scope N_scope.
 
 (* the reachable-state invariant: node ids unique, create indexes positive, no orphan services or
@@ -93,6 +93,84 @@ Proof.
   apply roundtrip; [apply C02_invariant; exact rich_wf|exact rich_fresh].
 Qed.
 
+(* ---------- audit round: the general round trip field by field, the derived table, the reads
+   without [Fresh], and the second generation ---------- *)
+
+(* For ANY reachable state (no [Fresh]): the restore succeeds and reproduces keys, tombstones,
+   sessions, session-check links, query bindings, nodes, services and the index rows EXACTLY;
+   no check is lost or added, and a check differs from the donor's at most in the service name it
+   copies ([refresh_check]).  This is "nothing lost, nothing resurrected" in full, and it bounds
+   what the open finding check-service-fields can alter. *)
+Theorem C02_roundtrip_frame : forall li qm s,
+  Inv s ->
+  exists r, restore li (snapshot qm s) = Ok r /\
+    kvs r = kvs s /\ tombs r = tombs s /\ sessions r = sessions s /\ schecks r = schecks s /\
+    queries r = queries s /\ nodes r = nodes s /\ services r = services s /\ index r = index s /\
+    lockdelay r = ∅ /\
+    forall nd cid, checks r !! (nd, cid) = refresh_check s nd <$> checks s !! (nd, cid).
+Proof. exact roundtrip_frame. Qed.
+
+(* the derived table of the core model: session-check links are not in the snapshot, the session
+   restorer rebuilds them, and what it builds is exactly what the restored session rows say *)
+Theorem C02_derived_session_checks : forall li qm s r,
+  Inv s -> restore li (snapshot qm s) = Ok r -> SCheckExact r.
+Proof. exact restored_session_checks. Qed.
+
+(* every modelled read but the node's check list: same result and index, Fresh or not *)
+Theorem C02_queries_general : forall li qm s r q,
+  Inv s -> restore li (snapshot qm s) = Ok r -> (forall nd, q <> QNodeChecks nd) ->
+  run_query q r = run_query q s.
+Proof. exact queries_general. Qed.
+
+(* second generation: whatever a restore produced satisfies the invariant, is Fresh, and its own
+   snapshot restores to exactly itself -- for all header / query indexes of both snapshots and
+   with NO freshness hypothesis on the donor *)
+Theorem C02_second_generation : forall li qm li2 qm2 s r,
+  Inv s -> restore li (snapshot qm s) = Ok r ->
+  Inv r /\ Fresh r /\ restore li2 (snapshot qm2 r) = Ok r.
+Proof. exact second_generation. Qed.
+
+(* the chained cycle: run j more commands on the restored server, snapshot IT, restore: the rest
+   of the history gives the same results and the same replicated state on both generations *)
+Theorem C02_chained : forall li qm li2 qm2 s r (rest : list (N * cmd)) (j : nat),
+  Inv s -> restore li (snapshot qm s) = Ok r -> wf_log (firstn j rest) r ->
+  let m := (run (firstn j rest) r).1 in
+  Fresh m ->
+  exists r2, restore li2 (snapshot qm2 m) = Ok r2 /\ r2 = repl m /\
+    (run (skipn j rest) r2).2 = (run (skipn j rest) m).2 /\
+    repl (run (skipn j rest) r2).1 = repl (run (skipn j rest) m).1.
+Proof. exact chained. Qed.
+
+(* non-vacuity of the second generation on a donor that is NOT Fresh: the restore of the stale
+   state differs from the donor, and the restored state's own snapshot restores to itself *)
+Example C02_second_generation_example :
+  ~ Fresh stale_state /\
+  exists r, restore 2 (snapshot (fun _ => 0) stale_state) = Ok r /\ r <> repl stale_state /\
+            Inv r /\ Fresh r /\ restore 7 (snapshot (fun _ => 5) r) = Ok r.
+Proof.
+  assert (HI : Inv stale_state) by (apply C02_invariant; exact stale_wf).
+  destruct stale_restore as (r & Hr & Hn).
+  assert (Hne : r <> repl stale_state).
+  { intros ->. pose proof (proj1 stale_names) as Hw.
+    change (checks (repl stale_state)) with (checks stale_state) in Hn. rewrite Hw in Hn. discriminate. }
+  split.
+  - intros Hf. apply Hne. pose proof (C02_roundtrip_partial 2 (fun _ => 0) stale_state HI Hf) as E.
+    rewrite Hr in E. injection E as ->. reflexivity.
+  - exists r. split; [exact Hr|]. split; [exact Hne|].
+    exact (C02_second_generation 2 (fun _ => 0) 7 (fun _ => 5) stale_state r HI Hr).
+Qed.
+
+(* each hypothesis of the theorems above is satisfiable (by states the run also feeds to the
+   implementation: corpus scripts 1000 / 1001 of harness/snaprestore/model.go) *)
+Example C02_hypotheses_satisfiable :
+  wf_log rich_log st0 /\ Inv rich_state /\ Fresh rich_state /\
+  wf_log stale_log st0 /\ Inv stale_state /\
+  (forall nd, QKVGet "a/b" <> QNodeChecks nd).
+Proof.
+  split; [exact rich_wf|]. split; [apply C02_invariant; exact rich_wf|]. split; [exact rich_fresh|].
+  split; [exact stale_wf|]. split; [apply C02_invariant; exact stale_wf|]. intros nd H. discriminate.
+Qed.
+
 Print Assumptions C02_invariant.
 Print Assumptions C02_invariant_step.
 Print Assumptions C02_roundtrip.
@@ -103,3 +181,10 @@ Print Assumptions C02_session_id_reuse_refuted.
 Print Assumptions C02_cut.
 Print Assumptions C02_queries.
 Print Assumptions C02_example.
+Print Assumptions C02_roundtrip_frame.
+Print Assumptions C02_derived_session_checks.
+Print Assumptions C02_queries_general.
+Print Assumptions C02_second_generation.
+Print Assumptions C02_chained.
+Print Assumptions C02_second_generation_example.
+Print Assumptions C02_hypotheses_satisfiable.
